@@ -603,3 +603,31 @@ def mono_void(ctx, r):
                  f"{f['name']}: `{q.show(x)[:70]}` tests a type obtained with solution_of_node, i.e. the generic solution with the function's type parameters still in it; inside an instance compiled for T = void the answer is wrong and a pop is emitted for a value that was never pushed (or the reverse). Use get_ty(mono, ..)",
                  sample=f"{f['name']}: void test on an instance type")
     r.count("void tests in the generator", n, 30, TB)
+
+
+@rule("VOID-EFFECTS", ["C02"], "whether a value is void decides whether it occupies a slot, never whether the expressions producing it are evaluated")
+def void_effects(ctx, r):
+    items = ctx.file_items(TB)
+    if items is None:
+        r.missing(TB)
+        return
+    n = 0
+    for f, _ in q.iter_items(items):
+        if f["k"] != "Fn" or f.get("body") is None or not f["name"].startswith("translate_"):
+            continue
+
+        def evals(node):
+            return {q.show(x["args"][0]).lstrip("&") for x in q.walk(node) if x["k"] == "MethodCall" and x["m"] in ("translate_expr", "translate_stmt") and x["args"]} if node is not None else set()
+
+        for c in q.walk(f["body"]):
+            if c["k"] != "If" or "SolvedType::Void" not in q.show(c["c"]):
+                continue
+            t, e = evals(c["t"]), evals(c.get("e"))
+            if not t and not e:
+                continue
+            n += 1
+            only_one = sorted(t ^ e)
+            r.ob(not only_one, f"translate_bytecode.rs:{f['name']}:{'+'.join(only_one)[:50]}:evaluated-only-when-{'non-' if t - e else ''}void", TB, c["l"],
+                 f"{f['name']}: under `{q.show(c['c'])[:60]}` the sub-expression(s) {only_one} are translated in one branch only: when the value is void the call producing it (and its side effects, and any bounds check) silently disappears from the program",
+                 sample=f"{f['name']}: operands evaluated on both sides of a void test")
+    r.count("void tests guarding sub-expression translation", n, 0, TB)
